@@ -2,7 +2,7 @@ from pat import *
 from expr import fmt, walk
 from harness import Skip
 from guards import decision_table, block_conditions, phi_defs
-from rules.common import adapters_in, loop_covers_all
+from rules.common import adapters_in, loop_covers_all, strip
 
 INFO = {
     "explanation": "GUARD/DEP/WMC rules over the MIR of Poplar1::is_agg_param_valid, the Prio3/Prio2 single-use rule and "
@@ -109,35 +109,45 @@ def run(ctx):
                 ctx.bad(rule, key, "an acceptance for a non-empty history bypasses the level check", loc=f.loc)
         # 3. universal quantification over all current prefixes
         key = "%s:%s:forall-prefixes-membership" % (rule, f.id)
-        rest = [rd for rd in g.retdefs if rd.kind == "call"]
+        # (after canonicalisation `iter.all(|p| ..)` is the loop `for p in iter { if !.. { return false } } true`)
         good = False
         detail = ""
-        if len(rest) == 1:
-            e = rest[0].expr
-            detail = fmt(e)[:300]
-            if Call("all", Field(Mentions(cur), "prefixes"), Any())(e) and not adapters_in(e[2][0]):
-                clos = e[2][1]
-                if clos[0] == "closure":
-                    cf = ctx.prog.by_did.get(clos[3])
-                    caps = dict(zip([c["n"] for c in cf.captures], clos[2]))
-                    cg = ctx.guards(cf)
-                    if len(cg.retdefs) == 1:
-                        r = cg.retdefs[0].expr
-                        detail += " ; closure returns " + fmt(r)[:200]
-                        # contains(set, prefix(cur_prefix, last_level))
-                        if Call("contains", Any(), Call("prefix", Arg(2), ThroughCasts(Any())))(r):
-                            set_up = r[2][0]
-                            lvl_up = r[2][1][2][1]
-                            while lvl_up[0] in ("cast", "conv"):
-                                lvl_up = lvl_up[1]
-                            set_e = caps.get(set_up[1]) if set_up[0] == "upvar" else None
-                            lvl_e = caps.get(lvl_up[1]) if lvl_up[0] == "upvar" else None
-                            if set_e is not None and set_e[0] == "phi":
-                                set_e = g.eb.init_expr(set_e[1]) or set_e
-                            set_ok = set_e is not None and Call("from_iter", Field(last_of(prev), "prefixes"))(set_e) and not adapters_in(set_e)
-                            lvl_ok = lvl_e is not None and Field(last_of(prev), "level")(lvl_e)
-                            good = set_ok and lvl_ok
-                            detail += " ; set=%s level=%s" % (fmt(set_e)[:120] if set_e else None, fmt(lvl_e)[:80] if lvl_e else None)
+        b = f.body
+        cs = [(bi, g.eb.call_expr(t)) for bi, t in b.calls() if t.callee.name == "contains" and g.loop_of(bi) is not None]
+        quant_true = None
+        if len(cs) == 1:
+            cbi, r = cs[0]
+            detail = fmt(r)[:300]
+            lp = g.loop_of(cbi)
+            class _E:
+                block = cbi
+            src = ctx.loop_source(f, _E)
+            nxt = [bi for bi in lp[1] if b.blocks[bi].term.kind == "call" and b.blocks[bi].term.callee.path == "std::iter::Iterator::next"]
+            item = Field(Call("next", Any()), name="0", variant="Some")
+            src_ok = src is not None and Field(Mentions(cur), "prefixes")(strip(src)) and not adapters_in(src) and len(nxt) == 1
+            if src_ok and Call("contains", Any(), Call("prefix", item, ThroughCasts(Any())))(r):
+                set_e = r[2][0]
+                lvl_e = r[2][1][2][1]
+                while lvl_e[0] in ("cast", "conv"):
+                    lvl_e = lvl_e[1]
+                if set_e[0] == "phi":
+                    set_e = g.eb.init_expr(set_e[1]) or set_e
+                set_ok = Call("from_iter", Field(last_of(prev), "prefixes"))(set_e) and not adapters_in(set_e)
+                lvl_ok = Field(last_of(prev), "level")(lvl_e)
+                # a prefix that is not a member refuses; the test is made in every iteration; the loop is left only by that
+                # refusal or by exhausting the prefixes, and `true` is returned only after exhaustion
+                ref = [e for e in g.edges if e.cond[0] == "truth" and e.cond[1] == r and e.cond[2] is False and e.block in lp[1]]
+                exits = [e for e in g.edges if e.block in lp[1] and e.target not in lp[1]]
+                none = [e for e in exits if e.cond[0] == "variant" and e.cond[2] == "None" and e.cond[3]]
+                latches = [t for (t, hh) in b.back_edges() if hh == lp[0]]
+                ref_ok = len(ref) == 1 and set(rd.kind for rd in ref[0].leads) == {"false"} and all(b.dominates(ref[0].block, t) for t in latches) and \
+                    len(none) == 1 and len(exits) == 2 and ref[0] in exits
+                if ref_ok:
+                    tr = [rd for rd in none[0].leads]
+                    ref_ok = len(tr) == 1 and tr[0].kind == "true" and b.dominates(none[0].target, tr[0].block)
+                    quant_true = tr[0] if ref_ok else None
+                good = set_ok and lvl_ok and ref_ok
+                detail += " ; set=%s level=%s per-item refusal=%s" % (fmt(set_e)[:120], fmt(lvl_e)[:80], ref_ok)
         if good:
             ctx.ok(rule, key, "returns cur.prefixes.iter().all(|p| set(last.prefixes).contains(p.prefix(last.level)))", loc=f.loc,
                    sample={"rule": rule, "shape": detail[:400]})
@@ -145,9 +155,9 @@ def run(ctx):
             ctx.bad(rule, key, "shape not recognised as `for all current prefixes: truncation to the last level is among all last prefixes`: %s" % detail, loc=f.loc)
         # nothing else can return true
         key = "%s:%s:no-other-acceptance" % (rule, f.id)
-        trues = [rd for rd in g.retdefs if rd.kind in ("true", "val", "ok")]
-        if len(trues) == 1 and len(g.retdefs) == 3:
-            ctx.ok(rule, key, "returns are exactly {true (empty history), false (level), forall-membership}", loc=f.loc)
+        trues = [rd for rd in g.retdefs if rd.kind not in ("false",) and rd is not quant_true]
+        if len(trues) == 1 and trues[0].kind == "true" and e0 and trues[0].block in g.reach(e0[0].target) and quant_true is not None:
+            ctx.ok(rule, key, "true is returned only for an empty history or after every prefix passed the membership test", loc=f.loc)
         else:
             ctx.bad(rule, key, "unexpected set of returns: %s" % [(rd.kind, fmt(rd.expr)[:60]) for rd in g.retdefs], loc=f.loc)
     except Skip:
